@@ -1238,6 +1238,57 @@ static void case_mix(rng_t *r, ctx_t *c) {
     model_free(&m); prog_free(&p);
 }
 
+/* ----------------------------------- far ---------------------------------------------
+ * File positions beyond 2^32.  After the definitions and a few calls the append position is moved 4 GiB (and a bit) ahead
+ * (jls_raw_chunk_seek on the writer's raw handle; iolog hides the hole from the real file), so that every offset the writer
+ * stores or returns to from then on needs more than 32 bits.  The write-once monitor judges every write as usual (C14: a
+ * position that lost its upper bits lands on stored chunks); the library's reader then reads the file through the same
+ * view and is compared with the model (C01/C11/C12/C13: offsets in links, head tables and index entries). */
+#include "jls/core.h"
+#include "jls/raw.h"
+static size_t g_far_at; static int64_t g_far_len; static int g_far_done;
+static void far_after_op(size_t i, struct jls_wr_s *wr) {
+    if (g_far_done || i != g_far_at) return;
+    struct jls_core_s *core = (struct jls_core_s *) wr;      /* struct jls_wr_s { struct jls_core_s core; } */
+    int64_t end = jls_raw_chunk_tell(core->raw);
+    if (end != (int64_t) g_io.sh_n) { v_note("C14", "far: writer position %lld is not the end of the file (%zu): no jump", (long long) end, g_io.sh_n); g_far_done = -1; return; }
+    iolog_far_hole(end, g_far_len);
+    if (jls_raw_chunk_seek(core->raw, end + g_far_len)) { v_note("C14", "far: seek beyond the end refused"); iolog_far_hole(0, 0); g_far_done = -1; return; }
+    g_far_done = 1;
+}
+
+static void case_far(rng_t *r, ctx_t *c) {
+    prog_t p; prog_init(&p);
+    char feat[300];
+    build_mix(&p, r, c, feat, sizeof(feat), 1);
+    size_t ndef = 0; while (ndef < p.n && (p.ops[ndef].kind == OP_SOURCE || p.ops[ndef].kind == OP_SIGNAL)) ++ndef;
+    if (p.n < ndef + 4) { prog_free(&p); return; }
+    g_far_at = (size_t) rng_range(r, (int64_t) ndef, (int64_t) (ndef + (p.n - ndef) / 3));
+    static const int64_t lens[] = {1LL << 32, (1LL << 32) + 32768, (3LL << 32) + 8, 1LL << 40};
+    g_far_len = RNG_PICK(r, lens); g_far_done = 0;
+    iolog_far_hole(0, 0);
+    model_t m; model_init(&m, &p);
+    const char *path = v_path("far.jls");
+    iolog_start(path, 1, 0);
+    exec_opts_t eo = {.kind = WR_SYNC, .stop_after = -1, .after_op = far_after_op};
+    int rc = exec_prog(&p, &m, path, &eo);
+    iolog_stop();
+    emit_io_counters("C14");
+    if (g_far_done != 1) { iolog_far_hole(0, 0); unlink(path); model_free(&m); prog_free(&p); return; }
+    v_count("C14", "far_files_written_beyond_4GiB", 1);
+    v_feature("C14", 1, "far|len=2^%d|hdr-rewrites=%d|head-rewrites=%d", g_far_len >= (1LL << 40) ? 40 : 32, g_io.n_inplace_hdr > 0, g_io.n_inplace_head > 0);
+    if (rc) v_violation("C14", "far|writer-close-error", NULL, "writer open/close returned %d on a file whose positions exceed 2^32", rc);
+    /* the reader, through the same view of the file */
+    iolog_start(path, 0, 0);
+    verify_opts_t vo = {.prop_len = "C01", .prop_data = "C01", .windows = 10, .check_defs = 1, .check_anno = 1, .check_utc = 1, .check_user = 1, .check_stats = 1, .stats_requests = 8, .max_level = 3, .rng = r, .file_kind = "far"};
+    verify_file(path, &m, &vo);
+    iolog_stop();
+    if (g_io.n_write || g_io.n_trunc) v_violation("C19", "closed-file|reader-wrote|far", NULL, "reading a closed file with positions beyond 2^32 caused %llu writes and %llu truncations", (unsigned long long) g_io.n_write, (unsigned long long) g_io.n_trunc);
+    iolog_far_hole(0, 0);
+    if (!getenv("VERIF_KEEP")) unlink(path);
+    model_free(&m); prog_free(&p);
+}
+
 /* ------------------------------------------------------------------------------------- */
 static void run_case(uint64_t idx, void *vctx) {
     ctx_t *c = vctx;
@@ -1251,6 +1302,7 @@ static void run_case(uint64_t idx, void *vctx) {
     else if (!strcmp(c->mode, "c13")) case_c13(&r, c);
     else if (!strcmp(c->mode, "c15")) case_c15(&r, c);
     else if (!strcmp(c->mode, "mix")) case_mix(&r, c);
+    else if (!strcmp(c->mode, "far")) case_far(&r, c);
     else { fprintf(stderr, "unknown mode %s\n", c->mode); exit(2); }
 }
 
